@@ -25,7 +25,7 @@ def Open (s : S) : Prop := s.active = true ∧ s.extName = true ∧ s.st.isSome 
 
 def Wf (s : S) : Prop := Closed s ∨ Open s
 
-theorem setLabel_isSome (st : Option (List Label)) (l : Label) : (setLabel st l).isSome = true := by
+theorem setLabel_isSome (st : Option (List Line)) (l : Line) : (setLabel st l).isSome = true := by
   cases st <;> rfl
 
 theorem handleExt_fields (s : S) (e : List Int) :
@@ -127,6 +127,15 @@ theorem wf_step (s : S) (op : Op) (h : Wf s) : Wf (step s op).1 := by
         | inl hc => rw [hc.1] at hh; simp at hh
         | inr ho => right; exact ⟨ho.1, ho.2.1, setLabel_isSome _ _⟩
       · exact h
+  | labelAt ts l =>
+    simp only [step]
+    split
+    · rename_i hh
+      simp only [Bool.and_eq_true] at hh
+      cases h with
+      | inl hc => rw [hc.1] at hh; simp at hh
+      | inr ho => right; exact ⟨ho.1, ho.2.1, setLabel_isSome _ _⟩
+    · exact h
 
 theorem wf_init : Wf S.init := Or.inl ⟨rfl, rfl, rfl, rfl, rfl⟩
 
@@ -148,9 +157,9 @@ def Rel (s : S) (sp : Spec) : Prop :=
   | none => Closed s
   | some c => Open s ∧ contentOf s.ext = c.ext ∧ contentOf s.drop = c.drop ∧ s.st = some c.labels
 
-theorem rel_label (s : S) (sp : Spec) (l : Label) (h : Rel s sp) :
-    ∃ sp', specLabel sp l (if s.active && !C06.multiLine l then false else true) = .ok sp' ∧
-      Rel (if s.active && !C06.multiLine l then { s with st := setLabel s.st l } else s) sp' := by
+theorem rel_label (s : S) (sp : Spec) (ts : Option Int) (l : Label) (h : Rel s sp) :
+    ∃ sp', specLabel sp (ts, l) (if s.active && !C06.multiLine l then false else true) = .ok sp' ∧
+      Rel (if s.active && !C06.multiLine l then { s with st := setLabel s.st (ts, l) } else s) sp' := by
   obtain ⟨hd, hc⟩ := h
   cases hcur : sp.cur with
   | none =>
@@ -163,9 +172,9 @@ theorem rel_label (s : S) (sp : Spec) (l : Label) (h : Rel s sp) :
     obtain ⟨ho, h1, h2, h3⟩ := hc
     by_cases hm : (s.active && !C06.multiLine l) = true
     · simp only [hm, if_true]
-      refine ⟨{ sp with cur := some { c with labels := c.labels ++ [l] } }, by simp [specLabel, hcur], hd, ?_⟩
+      refine ⟨{ sp with cur := some { c with labels := c.labels ++ [(ts, l)] } }, by simp [specLabel, hcur], hd, ?_⟩
       refine ⟨⟨ho.1, ho.2.1, setLabel_isSome _ _⟩, h1, h2, ?_⟩
-      show setLabel s.st l = _
+      show setLabel s.st (ts, l) = _
       rw [h3]; rfl
     · simp only [hm]
       exact ⟨sp, rfl, hd, by rw [hcur]; exact ⟨ho, h1, h2, h3⟩⟩
@@ -214,7 +223,7 @@ theorem rel_step (s : S) (sp : Spec) (op : Op) (h : Rel s sp) :
       | none => exact ⟨sp, rfl, h⟩
       | some l =>
         simp only [stepReq, specReq]
-        have := rel_label s sp l h
+        have := rel_label s sp none l h
         by_cases hm : (s.active && !C06.multiLine l) = true
         · simp only [hm, if_true] at this ⊢; exact this
         · simp only [hm] at this ⊢; exact this
@@ -259,10 +268,16 @@ theorem rel_step (s : S) (sp : Spec) (op : Op) (h : Rel s sp) :
     · simp only [he, if_true]
       exact ⟨sp, by simp [specLabel], h⟩
     · simp only [he, Bool.false_eq_true, if_false]
-      have := rel_label s sp l h
+      have := rel_label s sp none l h
       by_cases hm : (s.active && !C06.multiLine l) = true
       · simp only [hm, if_true] at this ⊢; exact this
       · simp only [hm] at this ⊢; exact this
+  | labelAt ts l =>
+    simp only [step, specStep]
+    have := rel_label s sp (some ts) l h
+    by_cases hm : (s.active && !C06.multiLine l) = true
+    · simp only [hm, if_true] at this ⊢; exact this
+    · simp only [hm] at this ⊢; exact this
 
 theorem rel_run (ops : List Op) : ∀ (s : S) (sp : Spec), Rel s sp →
     ∃ sp', specRun sp ops (runErrs s ops) = .ok sp' ∧ Rel (runOps s ops) sp' := by
@@ -300,22 +315,23 @@ def dropOf : List Op → List (Int × Int)
   | _ :: os => dropOf os
 
 /-- the label carried by a request that `SetExperimentStateLabel` accepts during a run -/
-def acceptedLabel : Op → List Label
-  | .label l => if l.isEmpty || C06.multiLine l then [] else [l]
+def acceptedLabel : Op → List Line
+  | .label l => if l.isEmpty || C06.multiLine l then [] else [(none, l)]
+  | .labelAt ts l => if C06.multiLine l then [] else [(some ts, l)]
   | .req r _ =>
     match C06.classify r with
-    | .unpause (some l) => if C06.multiLine l then [] else [l]
+    | .unpause (some l) => if C06.multiLine l then [] else [(none, l)]
     | _ => []
   | .block .. => []
 
-def labelsOf : List Op → List Label
+def labelsOf : List Op → List Line
   | [] => []
   | o :: os => acceptedLabel o ++ labelsOf os
 
 def NoStop (ops : List Op) : Prop := ∀ o ∈ ops, isStopOp o = false
 
 /-- one op inside a run -/
-theorem open_step (s : S) (ls : List Label) (ho : Open s) (hst : s.st = some ls) (op : Op)
+theorem open_step (s : S) (ls : List Line) (ho : Open s) (hst : s.st = some ls) (op : Op)
     (hn : isStopOp op = false) :
     Open (step s op).1 ∧ (step s op).1.done = s.done ∧
       contentOf (step s op).1.ext = contentOf s.ext ++ extOf [op] ∧
@@ -378,6 +394,21 @@ theorem open_step (s : S) (ls : List Label) (ho : Open s) (hst : s.st = some ls)
       | false =>
         simp only [Bool.not_false, if_true, Bool.false_eq_true, if_false]
         exact ⟨⟨rfl, o2, setLabel_isSome _ _⟩, trivial, trivial, trivial, by rw [hst]; rfl⟩
+  | labelAt ts l =>
+    have e1 : extOf [Op.labelAt ts l] = [] := rfl
+    have e2 : dropOf [Op.labelAt ts l] = [] := rfl
+    rw [e1, e2, List.append_nil, List.append_nil]
+    have same : Open s ∧ s.done = s.done ∧ contentOf s.ext = contentOf s.ext ∧
+        contentOf s.drop = contentOf s.drop ∧ s.st = some (ls ++ []) :=
+      ⟨⟨o1, o2, o3⟩, rfl, rfl, rfl, by rw [hst, List.append_nil]⟩
+    simp only [step, acceptedLabel, o1, Bool.true_and]
+    cases hm : C06.multiLine l with
+    | true =>
+      simp only [Bool.not_true, Bool.false_eq_true, if_false, if_true]
+      exact ⟨same.1, trivial, trivial, trivial, same.2.2.2.2⟩
+    | false =>
+      simp only [Bool.not_false, if_true, Bool.false_eq_true, if_false]
+      exact ⟨⟨rfl, o2, setLabel_isSome _ _⟩, trivial, trivial, trivial, by rw [hst]; rfl⟩
 
 theorem extOf_cons (o : Op) (os : List Op) : extOf (o :: os) = extOf [o] ++ extOf os := by
   cases o <;> simp [extOf]
@@ -386,7 +417,7 @@ theorem dropOf_cons (o : Op) (os : List Op) : dropOf (o :: os) = dropOf [o] ++ d
   cases o <;> simp [dropOf]
 
 /-- a whole segment inside a run -/
-theorem open_segment (mid : List Op) : ∀ (s : S) (ls : List Label), Open s → s.st = some ls → NoStop mid →
+theorem open_segment (mid : List Op) : ∀ (s : S) (ls : List Line), Open s → s.st = some ls → NoStop mid →
     Open (runOps s mid) ∧ (runOps s mid).done = s.done ∧
       contentOf (runOps s mid).ext = contentOf s.ext ++ extOf mid ∧
       contentOf (runOps s mid).drop = contentOf s.drop ++ dropOf mid ∧
@@ -474,11 +505,23 @@ theorem C20_state_file (pre mid : List Op) (rStart rStop : List Nat) (v : Bool)
   simp [runFilesOf]
 
 /-- a label request is accepted (no error) exactly when it contributes a line, inside a run -/
-theorem label_accepted_iff_line (s : S) (ho : Open s) (op : Op) (hl : ∃ l, op = .label l) :
+theorem label_accepted_iff_line (s : S) (ho : Open s) (op : Op)
+    (hl : (∃ l, op = .label l) ∨ (∃ ts l, op = .labelAt ts l)) :
     ((step s op).2 = false) ↔ (acceptedLabel op).length = 1 := by
-  obtain ⟨l, rfl⟩ := hl
-  simp only [step, acceptedLabel, ho.1, Bool.true_and]
-  cases l.isEmpty <;> cases C06.multiLine l <;> simp
+  rcases hl with ⟨l, rfl⟩ | ⟨ts, l, rfl⟩
+  · simp only [step, acceptedLabel, ho.1, Bool.true_and]
+    cases l.isEmpty <;> cases C06.multiLine l <;> simp
+  · simp only [step, acceptedLabel, ho.1, Bool.true_and]
+    cases C06.multiLine l <;> simp
+
+/-- **C20_label_own_stamp**: inside a run, a label handed to `AnySource.SetExperimentStateLabel` with
+ANY time stamp `ts` (earlier than, equal to or later than the line before) and a single-line label is
+accepted and appends exactly the line `(ts, l)` after everything already in the file. -/
+theorem C20_label_own_stamp (s : S) (ls : List Line) (ho : Open s) (hst : s.st = some ls) (ts : Int)
+    (l : Label) (hl : C06.multiLine l = false) :
+    (step s (.labelAt ts l)).2 = false ∧ (step s (.labelAt ts l)).1.st = some (ls ++ [(some ts, l)]) := by
+  simp only [step, ho.1, hl, Bool.true_and, Bool.not_false, if_true]
+  exact ⟨trivial, by rw [hst]; rfl⟩
 
 /-- **C20_closed_files_frozen**: files closed by a STOP never change afterwards, whatever follows. -/
 theorem C20_closed_files_frozen (ops : List Op) : ∀ s, ∃ t, (runOps s ops).done = s.done ++ t := by
@@ -515,6 +558,9 @@ theorem C20_closed_files_frozen (ops : List Op) : ∀ s, ∃ t, (runOps s ops).d
         split
         · exact ⟨[], by simp⟩
         · split <;> exact ⟨[], by simp⟩
+      | labelAt ts l =>
+        simp only [step]
+        split <;> exact ⟨[], by simp⟩
     obtain ⟨t1, ht1⟩ := h1
     exact ⟨t1 ++ t, by simp only [runOps]; rw [ht, ht1, List.append_assoc]⟩
 
@@ -527,8 +573,17 @@ example :
       [.req C06.sSTART true, .block [7, 8] 3 100, .label [65], .label [65, 10, 66], .req C06.sSTOP false,
        .block [9] 2 111,
        .req C06.sSTART true, .block [11] 0 121, .req (C06.sUNPAUSE ++ [32, 66]) false, .req C06.sSTOP false]).done
-      = [{ ext := [7, 8], drop := [(100, 3)], st := some [lSTART, [65], lSTOP] },
-         { ext := [11], drop := [], st := some [lSTART, [66], lSTOP] }] := by decide
+      = [{ ext := [7, 8], drop := [(100, 3)], st := some [lSTART, (none, [65]), lSTOP] },
+         { ext := [11], drop := [], st := some [lSTART, (none, [66]), lSTOP] }] := by decide
+
+/-- time stamps going backwards, repeating and jumping ahead: one line per accepted request, each with
+its own stamp, in acceptance order -/
+example :
+    (runOps S.init
+      [.req C06.sSTART true, .labelAt 50 [65], .label [66], .labelAt 50 [67], .labelAt 49 [68],
+       .labelAt 4000000000000000000 [69], .label [70], .labelAt 0 [], .req C06.sSTOP false]).done
+      = [{ ext := [], drop := [], st := some [lSTART, (some 50, [65]), (none, [66]), (some 50, [67]),
+            (some 49, [68]), (some 4000000000000000000, [69]), (none, [70]), (some 0, []), lSTOP] }] := by decide
 
 example : NoStop [.block [1] 0 5, .label [65], .req C06.sPAUSE false, .req C06.sSTART true] := by
   intro o ho
